@@ -234,6 +234,17 @@ def generate(rng, tier):
                 cs[deg] = 1.0
             yield solve_poly(cs, f'sparse-deg{deg}')
             yield solve_model(cs, f'sparse-deg{deg}')
+        # quartics that are products of two small-integer quadratics (one of them often without real roots): the resolvent cubic then has exactly
+        # vanishing or negligible coefficients
+        qa, qb, qc, qd = (float(rng.randint(-6, 6)) for _ in range(4))
+        lead = rng.choice([1.0, 1.0, -2.0, 3.0])
+        prod = [qb * qd, qa * qd + qb * qc, qb + qd + qa * qc, qa + qc, 1.0]
+        yield solve_poly([lead * c for c in prod], 'product-of-integer-quadratics')
+        # quartics whose resolvent cubic t^3 + g t + h has g = a c - 4 d - b^2/3 exactly zero (dyadic coefficients): the dominant root is then a bare cube root
+        ga, gc, gb = float(rng.randint(-8, 8)), float(rng.randint(-8, 8)), 3.0 * rng.randint(-3, 3)
+        gd = (ga * gc - gb * gb / 3) / 4
+        if gd != 0.0:
+            yield solve_poly([gd, gc, gb, ga, 1.0], 'resolvent-g-zero')
         # nearly pure cubics x^3 + e2 x^2 + e1 x = k (negligible depressed linear term): the one-root branch
         k0 = rng.uniform(-5, 5) or 1.0
         e2, e1 = rng.uniform(-1, 1) * 10.0 ** rng.randint(-9, -2), rng.uniform(-1, 1) * 10.0 ** rng.randint(-12, -3)
@@ -316,5 +327,20 @@ def cubic_one_root_cancellation(case, outs, verdict):
     return any(abs(x - r) <= 1e-5 * abs(r) for r in roots)
 
 
+def quartic_equal_linear_factors(case, outs, verdict):
+    """root cause: a quartic that factors into two quadratics with the SAME linear coefficient, x^4+ax^3+bx^2+cx+d = (x^2+px+q)(x^2+px+r)
+    (equivalently c = (a/2)(b - a^2/4); for instance two pairs of roots with equal sums): the LDL^T factorisation then has d_2 = 0 up to rounding,
+    the code only handles the exact `d_2 == 0.0` ("TODO: handle case d_2 is very small?") and about 3 % of such inputs come out as two garbage double roots
+    (solve_quartic(-4,-22,-21,2,1) -> -3.854, 2.854 twice; roots -5.236, -0.764, -0.236, 4.236)."""
+    co = list(_coefs_of(case))
+    if len(co) != 5 or co[4] == 0.0 or co[0] == 0.0:
+        return False
+    a, b, c = co[3] / co[4], co[2] / co[4], co[1] / co[4]
+    if a == 0.0 and c == 0.0:
+        return False
+    return abs(c - (a / 2) * (b - a * a / 4)) <= 1e-9 * (abs(c) + abs(a * b) + abs(a) ** 3 + 1e-300)
+
+
 KNOWN_CLASSES = {'cubic_small_leading': cubic_small_leading, 'quartic_overflow_leading': quartic_overflow_leading,
+                 'quartic_equal_linear_factors': quartic_equal_linear_factors,
                  'cubic_one_root_cancellation': cubic_one_root_cancellation}
